@@ -151,6 +151,9 @@ def instances(tier):
         out.append(("topology", {"mesh": name}))
     out.append(("topology_sweep", {"v": 4, "k": 4}))
     out.append(("topology_sweep", {"v": 5, "k": 3 if not thorough else 5}))
+    out.append(("topology_sweep", {"v": 7, "k": 3, "unordered": True}))
+    if thorough:
+        out.append(("topology_sweep", {"v": 8, "k": 3, "unordered": True}))
     if os.environ.get("C17_SELFTEST"):
         # planted bugs (F.patch inside the harness): every one of these must be reported as a VIOLATION
         out = [("area_basic", {"n": 2, "tris": 1, "selftest_mutant": "area_no_abs"}),
@@ -787,6 +790,16 @@ def topology(F, ob, cfg):
     ob.true("trilist_untouched", np.asarray(m.trilist).tolist() == np.asarray(tl).tolist())
 
 
+def _sweep_unordered(v, k):
+    """all SETS of 1..k distinct triangles on v vertices (more vertices than triangles: sparse soups, fans, unreferenced
+    vertices), each in two orientation patterns"""
+    sets = list(itertools.combinations(range(v), 3))
+    for n in range(1, k + 1):
+        for seq in itertools.combinations(sets, n):
+            for flip in (False, True):
+                yield [list((a, c, b) if (flip ^ (pos % 2 == 1)) else (a, b, c)) for pos, (a, b, c) in enumerate(seq)]
+
+
 def _sweep(v, k):
     """all ordered lists of 1..k distinct triangles (vertex sets) on v vertices; the first triangle in both orientations,
     the others in one rotated/flipped orientation chosen by position (so that shared edges occur in both directions)"""
@@ -814,7 +827,7 @@ def topology_sweep(F, ob, cfg):
     v, k = cfg["v"], cfg["k"]
     pts = F.reals("p", (v, 3), -4, 4)
     bad_x, bad_b, bad_u, n = [], [], [], 0
-    for tl in _sweep(v, k):
+    for tl in (_sweep_unordered(v, k) if cfg.get("unordered") else _sweep(v, k)):
         n += 1
         m = TriMesh(pts, trilist=np.array(tl), copy=False)
         vb, vu = _topology_of(m, tl)
